@@ -485,6 +485,13 @@ func (w *worker) runTree(profile string, root *Node, effort int, exprMode bool) 
 		}
 		for _, d := range devs {
 			w.tryLayout(profile, root, rMin, &Layout{Devs: []Dev{d}}, false, false)
+			if exprMode && d.K != "lsemi" { // (a trailing ';' belongs to statements, not to an expression)
+				// the same text handed to ParseExpr: blank and comment lines before and after, continuations, ...
+				w.tryLayout(profile, root, rMin, &Layout{Devs: []Dev{d}}, true, false)
+			}
+		}
+		if exprMode {
+			w.tryLayout(profile, root, rMin, &Layout{CRLF: true}, true, false)
 		}
 		w.st.Count("layouts.single-deviation", int64(len(devs)))
 	}
